@@ -250,9 +250,15 @@ func c13Upstream(k *fw.K) {
 		k.Failf("upstream program -> %s: panic=%v err=%v", kind, pn, err)
 		return
 	}
-	want := p.Grad(vals, root, nil, ref.RuleSum)
+	want, scale := p.GradS(vals, root, nil, ref.RuleSum)
+	for _, w := range want {
+		if w != nil && !(maxAbsAll(w) < 1e8) {
+			k.Count("upstream_cases_skipped_ill_conditioned", 1)
+			return
+		}
+	}
 	ts[root-1] = nil // the target leaf: the statement says nothing about gradients with respect to targets (not differentiable at 0 and 1)
-	if msg := checkGrads(ts, want, fmt.Sprintf("%s over an upstream program (prediction = tensor %d)", kind, pred)); msg != "" {
+	if msg := checkGradsScaled(ts, want, scale, fmt.Sprintf("%s over an upstream program (prediction = tensor %d)", kind, pred)); msg != "" {
 		k.Failf("%s", msg)
 	}
 }
